@@ -31,6 +31,7 @@ def mon_stats(mons):
         if isinstance(m, Mo.MisuseMonitor):
             d['misuse_calls'] = m.calls
             d['misuse_engine_states'] = m.distinct
+            d['misuse_engine_states_checked'] = getattr(m, 'checked', 0)
     return d
 
 
@@ -77,9 +78,13 @@ def explore_chain(job):
             st, viols = ind.run_c01_instance(_MOD, [tuple(n) for n in job['nodes']], [tuple(e) for e in job['edges']], job['mode'],
                                              deadline=job.get('deadline'), stale=job.get('stale', ()), built=job.get('hist') == 'built')
         else:
-            fn = chain.run_reeval_instance if job['family'] == 'H-EVAL2' else chain.run_resume_instance
-            st, viols = fn(_MOD, [tuple(n) for n in job['nodes']], [tuple(e) for e in job['edges']], job['mode'], deadline=job.get('deadline'),
-                           built=job.get('hist') == 'built')
+            if job['family'] == 'H-EVAL2':
+                st, viols = chain.run_reeval_instance(_MOD, [tuple(n) for n in job['nodes']], [tuple(e) for e in job['edges']], job['mode'],
+                                                      deadline=job.get('deadline'), built=job.get('hist') == 'built',
+                                                      stale=job.get('stale', ()), inputs=job.get('inputs'))
+            else:
+                st, viols = chain.run_resume_instance(_MOD, [tuple(n) for n in job['nodes']], [tuple(e) for e in job['edges']], job['mode'],
+                                                      deadline=job.get('deadline'), built=job.get('hist') == 'built')
         groups = {}
         for v in viols:
             gk = group_key(v['prop'], v['what'])
@@ -311,7 +316,8 @@ def universes(family, tier, seed):
             for shape, n in (('chain', 8), ('layers', [3, 3]), ('fan', 8)):
                 jobs.append({'family': family, 'shape': shape, 'n': n, 'pattern': [K[c] for c in pat]})
         big = [('chain', 600, ['OOO', 'EEO', 'AOE', 'OEE', 'EOA']), ('layers', [20, 30], ['OOO', 'EOE', 'AEO']),
-               ('fan', 600, ['OOO', 'AEO', 'EEO', 'OEO'])]
+               ('fan', 600, ['OOO', 'AEO', 'EEO', 'OEO']),
+               ('etail', [2, 48], ['OOO', 'AOO']), ('etail', [1, 600], ['OOO']), ('etail', [3, 20], ['OOO'])]
         if tier == 'thorough':
             big += [('chain', 4000, ['OOO', 'EEO', 'AOE']), ('layers', [40, 100], ['OOO', 'EOE']), ('fan', 4000, ['OOO', 'AEO']),
                     ('chain', 1500, ['OEE', 'EOA', 'AEO', 'OEO']), ('layers', [100, 12], ['OEO', 'AOE'])]
@@ -351,6 +357,11 @@ def universes(family, tier, seed):
         if family == 'H-EVAL2':
             for nodes, edges in CURATED4:
                 jobs.append({'family': family, 'nodes': nodes, 'edges': edges, 'mode': 'ident'})
+            # re-evaluation after graph edits: stale records, renamed multi-output ids, production input-name convention
+            for nodes, edges, stale in HIST_CASES:
+                jobs.append({'family': family, 'nodes': nodes, 'edges': edges, 'mode': 'ident', 'stale': stale})
+            for nodes, edges, stale, inputs in PROD_CASES:
+                jobs.append({'family': family, 'nodes': nodes, 'edges': edges, 'mode': 'prod', 'stale': stale, 'inputs': inputs})
             if tier == 'thorough':
                 jobs += built_jobs(family, tier, seed, n4=-1, chain=-1, chain_max=6, rand=100)
             else:
@@ -399,7 +410,7 @@ def universes(family, tier, seed):
         jobs += built_jobs('H-EVAL', tier, seed, n4=-1, chain=-1, chain_max=6, rand=300, modes=('ident',))
         jobs += built_jobs('H-EVAL', tier, seed, n4=600, chain=300, chain_max=6, rand=0, modes=('reld',))
     else:
-        jobs += built_jobs('H-EVAL', tier, seed, n4=250, chain=200, chain_max=6, rand=0, modes=('ident',))
+        jobs += built_jobs('H-EVAL', tier, seed, n4=300, chain=600, chain_max=6, rand=0, modes=('ident',))
         jobs += built_jobs('H-EVAL', tier, seed, n4=60, chain=20, chain_max=6, rand=0, modes=('reld',), curated=False)
     for i, j in enumerate(jobs):
         j['name'] = 'u%d_%s%s_%s' % (i, 'B' if j.get('hist') == 'built' else '', j['mode'], ''.join(k[0] for _, k in j['nodes']) + '_' + ''.join('%s%s' % (u, d) for d, u in j['edges']))
